@@ -29,6 +29,8 @@
 #include <sys/syscall.h>
 #include <sys/wait.h>
 #include <sys/mman.h>
+#include <sys/prctl.h>
+#include <dirent.h>
 #include <sys/stat.h>
 #include <fcntl.h>
 
@@ -75,20 +77,23 @@ static void h_reset_writer(void)
 #define NSTREAM 2
 #define MAXEV 24000
 #define MAXINFO 32
+#define NKEY 5          /* A, B, pad + the two extra keys x, y that only some ranks register (leg multi) */
+#define MAXRANK 3
 typedef struct {
     int kidx, isend, ukey; uint16_t flags; uint64_t eid; uint32_t tp;
     int has_info, ilen; uint8_t info[MAXINFO]; uint64_t tlo, thi; int gidx;
 } mev_t;
-typedef struct { int klen[3]; int mode, pages, xn, xconv, ginfo, rank; } cfg_t;
-static mev_t *M[NSTREAM]; static int Mn[NSTREAM];
+typedef struct { int klen[NKEY]; int mode, pages, xn, xconv, ginfo, rank; char plan[8]; /* registration order, letters of "abpxy" */ } cfg_t;
+static mev_t *M[NSTREAM]; static int Mn[NSTREAM]; static int h_maxev = MAXEV;
 static char h_dir[256] = "/dev/shm";
 static volatile double *h_heartbeat = NULL;   /* worker: slot's last_progress, refreshed while a long case is being written / read */
 static double h_now(void);
 #define H_BEAT(i) do { if (h_heartbeat && ((i) & 255) == 0) *h_heartbeat = h_now(); } while (0)
 static int h_verbose = 0;
-static const char *KNAME[3] = { "C42 key A", "C42 key B", "C42 pad" };
-static const char *KATTR[3] = { "fill:#A1B2C3", "fill:#00FF7F", "fill:#123456" };
-static const char *KCONV[3] = { "a{int32_t}", "x{int64_t};y{int64_t};z{double}", NULL };
+static const char *KNAME[NKEY] = { "C42 key A", "C42 key B", "C42 pad", "C42 extra x", "C42 extra y" };
+static const char *KATTR[NKEY] = { "fill:#A1B2C3", "fill:#00FF7F", "fill:#123456", "fill:#0A0B0C", "fill:#DDEEFF" };
+static const char *KCONV[NKEY] = { "a{int32_t}", "x{int64_t};y{int64_t};z{double}", NULL, "q{int64_t};r{int64_t}", NULL };
+static const char PLANCH[NKEY + 1] = "abpxy";
 #define HR_INFO "C42 round trip trace"
 
 static void *h_fn_xor(void *dst, const void *src, size_t n) { for (size_t j = 0; j < n; j++) ((uint8_t *)dst)[j] = ((const uint8_t *)src)[j] ^ 0x5a; return dst; }
@@ -96,12 +101,13 @@ static void *h_fn_inc(void *dst, const void *src, size_t n) { for (size_t j = 0;
 
 #define FAIL(...) do { snprintf(err, SX_ERRLEN, __VA_ARGS__); return 1; } while (0)
 
-typedef struct { parsec_profiling_stream_t *st[NSTREAM]; int ks[3], ke[3]; uint64_t t0; int gcount; const cfg_t *c; } wr_t;
+typedef struct { parsec_profiling_stream_t *st[NSTREAM]; int ks[NKEY], ke[NKEY]; uint64_t t0; int gcount; const cfg_t *c; } wr_t;
 
 static int h_emit(wr_t *w, int s, int kidx, int isend, int force_info /* -1: by mode, 0: none, 1: with */, char *err)
 {
     const cfg_t *c = w->c;
-    if (Mn[s] >= MAXEV) FAIL("harness: too many events in one stream");
+    if (Mn[s] >= h_maxev) FAIL("harness: too many events in one stream");
+    if (w->ks[kidx] < 2) FAIL("harness: the case traces key %s, which its dictionary plan '%s' does not register", KNAME[kidx], c->plan);
     mev_t *e = &M[s][Mn[s]];
     int gi = w->gcount++;
     H_BEAT(gi);
@@ -142,7 +148,16 @@ static int h_parse_cfg(const char *prog, cfg_t *c, const char **rest)
     memset(c, 0, sizeof(*c)); c->pages = 1;
     const char *semi = strchr(prog, ';'); if (!semi) return -1;
     if (sscanf(prog, "K=%d,%d M=%d P=%d X=%d,%d G=%d R=%d", &c->klen[0], &c->klen[1], &c->mode, &c->pages, &c->xn, &c->xconv, &c->ginfo, &c->rank) != 8) return -1;
-    c->klen[2] = 1;
+    c->klen[2] = 1; c->klen[3] = 16; c->klen[4] = 8; strcpy(c->plan, "abp");
+    {   /* optional dictionary plan: D=<letters of abpxy>, a b p exactly once, x y at most once */
+        const char *d = strstr(prog, " D=");
+        if (d && d < semi) {
+            int cnt[NKEY] = { 0 }, n = 0; d += 3;
+            while (*d && *d != ' ' && *d != ';') { const char *q = strchr(PLANCH, *d); if (!q || n >= 5) return -1; cnt[q - PLANCH]++; c->plan[n++] = *d++; }
+            c->plan[n] = 0;
+            if (cnt[0] != 1 || cnt[1] != 1 || cnt[2] != 1 || cnt[3] > 1 || cnt[4] > 1) return -1;
+        }
+    }
     if (c->klen[0] > MAXINFO || c->klen[1] > MAXINFO || c->mode < 0 || c->mode > 2 || c->xn > 120 || c->xconv > 1000) return -1;
     *rest = semi + 1; return 0;
 }
@@ -184,7 +199,8 @@ static int h_write(const char *prog, const char *base, cfg_t *c, char *err)
     int rc;
     if ((rc = parsec_profiling_init(c->rank)) != 0) FAIL("writer: parsec_profiling_init returned %d", rc);
     if ((rc = parsec_profiling_dbp_start(base, HR_INFO)) != 0) FAIL("writer: parsec_profiling_dbp_start returned %d (%s)", rc, parsec_profiling_strerror());
-    for (int k = 0; k < 3; k++) {
+    for (const char *q = c->plan; *q; q++) {      /* registration order = the case's dictionary plan (default: A, B, pad) */
+        int k = (int)(strchr(PLANCH, *q) - PLANCH);
         rc = parsec_profiling_add_dictionary_keyword(KNAME[k], KATTR[k], (size_t)c->klen[k], KCONV[k], &w.ks[k], &w.ke[k]);
         if (rc != 0) FAIL("writer: add_dictionary_keyword(%s) returned %d", KNAME[k], rc);
         if (w.ke[k] != w.ks[k] + 1 || w.ks[k] < 2) FAIL("writer: dictionary keys for %s are %d/%d", KNAME[k], w.ks[k], w.ke[k]);
@@ -215,13 +231,13 @@ static int h_write(const char *prog, const char *base, cfg_t *c, char *err)
             long b = T % (long)base_sz, a = (T - (long)(base_sz + 1) * b) / (long)base_sz;
             if (a < 0 || (long)base_sz * a + (long)(base_sz + 1) * b != T) FAIL("harness: filler size %ld not representable", T);
             for (long i = 0; i < a + b; i++) if (h_emit(&w, s, 2, (int)(i & 1), i < b ? 1 : 0, err)) return 1;
-        } else if (*p == 'U' || *p == 'A' || *p == 'B') {
+        } else if (*p == 'U' || *p == 'A' || *p == 'B' || *p == 'X' || *p == 'Y') {
             int rep = 1, n = 0; char kc, sg; int s;
             if (*p == 'U') { if (sscanf(p, "U%c%c%dx%d%n", &kc, &sg, &s, &rep, &n) != 4) FAIL("harness: bad token at '%s'", p); }
             else if (sscanf(p, "%c%c%d%n", &kc, &sg, &s, &n) != 3) FAIL("harness: bad token at '%s'", p);
-            if ((kc != 'A' && kc != 'B') || (sg != '+' && sg != '-') || s < 0 || s >= NSTREAM) FAIL("harness: bad token at '%s'", p);
+            if ((kc != 'A' && kc != 'B' && kc != 'X' && kc != 'Y') || (sg != '+' && sg != '-') || s < 0 || s >= NSTREAM) FAIL("harness: bad token at '%s'", p);
             p += n;
-            for (int i = 0; i < rep; i++) if (h_emit(&w, s, kc - 'A', sg == '-', -1, err)) return 1;
+            for (int i = 0; i < rep; i++) if (h_emit(&w, s, kc >= 'X' ? 3 + (kc - 'X') : kc - 'A', sg == '-', -1, err)) return 1;
         } else if (*p == 'W') {
             int wn, seg, nseg, n; long dl;
             if (sscanf(p, "W%d:%d/%d%n", &wn, &seg, &nseg, &n) != 3 || nseg < 1 || seg < 0 || seg >= nseg) FAIL("harness: bad token at '%s'", p);
@@ -274,30 +290,42 @@ static void h_layout(const char *path, char *out, size_t cap, int *maxbuf)
 }
 
 /* ---- read back through the real reader and compare with the model ---- */
-static int h_readback(const char *path, const cfg_t *c, char *err)
+typedef struct { cfg_t c; mev_t *ev[NSTREAM]; int n[NSTREAM]; } rmodel_t;     /* what one process (rank) wrote */
+typedef struct { char name[64], attr[64], conv[1024]; int len; } dent_t;
+#define MAXDENT (1 + NKEY + 120)
+/* the dictionary a rank registered, in registration order (entry 0 = the key "N/A" reserved by parsec_profiling_init) */
+static int h_dict_expect(const cfg_t *c, dent_t *out)
 {
-    char *files[1] = { (char *)path };
-    dbp_multifile_reader_t *dbp = dbp_reader_open_files(1, files);
-    if (!dbp) FAIL("reader: dbp_reader_open_files returned NULL");
-    if (dbp_reader_nb_files(dbp) != 1) FAIL("reader: %d files opened instead of 1", dbp_reader_nb_files(dbp));
-    if (dbp_reader_last_error(dbp) != 0) FAIL("reader: reports error %d on a complete trace", dbp_reader_last_error(dbp));
-    dbp_file_t *f = dbp_reader_get_file(dbp, 0);
-    if (dbp_file_error(f) != 0) FAIL("reader: file error %d", dbp_file_error(f));
-    if (strcmp(dbp_file_hr_id(f), HR_INFO)) FAIL("reader: trace hr_id '%s' != written '%s'", dbp_file_hr_id(f), HR_INFO);
-    if (dbp_file_get_rank(f) != c->rank) FAIL("reader: rank %d != written %d", dbp_file_get_rank(f), c->rank);
-    /* dictionary */
-    int nd = dbp_file_nb_dictionary_entries(f), want = 1 + 3 + c->xn;
-    if (nd != want) FAIL("reader: %d dictionary entries, %d were registered (incl. the reserved N/A)", nd, want);
-    for (int d = 1; d < nd; d++) {
-        char name[64], attr[64], conv[1024]; const char *wn, *wa, *wc; int wl;
-        if (d <= 3) { wn = KNAME[d - 1]; wa = KATTR[d - 1]; wc = KCONV[d - 1] ? KCONV[d - 1] : ""; wl = c->klen[d - 1]; }
-        else { h_xkey(d - 4, c->xconv, name, attr, &wl, conv); wn = name; wa = attr; wc = conv; }
+    int n = 0;
+    strcpy(out[n].name, "N/A"); strcpy(out[n].attr, "fill:#000000"); out[n].conv[0] = 0; out[n].len = 0; n++;
+    for (const char *q = c->plan; *q; q++) {
+        int k = (int)(strchr(PLANCH, *q) - PLANCH);
+        strcpy(out[n].name, KNAME[k]); strcpy(out[n].attr, KATTR[k]); strcpy(out[n].conv, KCONV[k] ? KCONV[k] : ""); out[n].len = c->klen[k]; n++;
+    }
+    for (int i = 0; i < c->xn; i++) { h_xkey(i, c->xconv, out[n].name, out[n].attr, &out[n].len, out[n].conv); n++; }
+    return n;
+}
+
+/* everything file #fidx of an opened reader must show, given what its rank wrote. who = "" or a prefix naming the file in a multi-file reader */
+static int h_check_file(dbp_multifile_reader_t *dbp, int fidx, const rmodel_t *rm, const char *who, char *err)
+{
+    const cfg_t *c = &rm->c;
+    static dent_t DE[MAXDENT];
+    dbp_file_t *f = dbp_reader_get_file(dbp, fidx);
+    if (dbp_file_error(f) != 0) FAIL("reader: %sfile error %d", who, dbp_file_error(f));
+    if (strcmp(dbp_file_hr_id(f), HR_INFO)) FAIL("reader: %strace hr_id '%s' != written '%s'", who, dbp_file_hr_id(f), HR_INFO);
+    if (dbp_file_get_rank(f) != c->rank) FAIL("reader: %srank %d != written %d", who, dbp_file_get_rank(f), c->rank);
+    /* dictionary of the file (through the file's local -> global mapping) */
+    int nd = dbp_file_nb_dictionary_entries(f), want = h_dict_expect(c, DE);
+    if (nd != want) FAIL("reader: %s%d dictionary entries, %d were registered (incl. the reserved N/A)", who, nd, want);
+    for (int d = 0; d < nd; d++) {
+        const char *wn = DE[d].name, *wa = DE[d].attr, *wc = DE[d].conv; int wl = DE[d].len;
         dbp_dictionary_t *e = dbp_file_get_dictionary(f, d);
-        if (strcmp(dbp_dictionary_name(e), wn)) FAIL("reader: dictionary entry %d has name '%s', written '%s'", d, dbp_dictionary_name(e), wn);
-        if (dbp_dictionary_keylen(e) != wl) FAIL("reader: dictionary entry %d (%s) has info length %d, written %d", d, wn, dbp_dictionary_keylen(e), wl);
-        if (strcmp(dbp_dictionary_convertor(e), wc)) FAIL("reader: dictionary entry %d (%s) has convertor '%.60s', written '%.60s'", d, wn, dbp_dictionary_convertor(e), wc);
+        if (strcmp(dbp_dictionary_name(e), wn)) FAIL("reader: %sdictionary entry %d has name '%s', written '%s'", who, d, dbp_dictionary_name(e), wn);
+        if (dbp_dictionary_keylen(e) != wl) FAIL("reader: %sdictionary entry %d (%s) has info length %d, written %d", who, d, wn, dbp_dictionary_keylen(e), wl);
+        if (strcmp(dbp_dictionary_convertor(e), wc)) FAIL("reader: %sdictionary entry %d (%s) has convertor '%.60s', written '%.60s'", who, d, wn, dbp_dictionary_convertor(e), wc);
         /* the reader keeps the 6 trailing characters (the RRGGBB colour) of the attributes */
-        if (strcmp(dbp_dictionary_attributes(e), wa + strlen(wa) - 6)) FAIL("reader: dictionary entry %d (%s) has colour '%s', written '%s'", d, wn, dbp_dictionary_attributes(e), wa);
+        if (strcmp(dbp_dictionary_attributes(e), wa + strlen(wa) - 6)) FAIL("reader: %sdictionary entry %d (%s) has colour '%s', written '%s'", who, d, wn, dbp_dictionary_attributes(e), wa);
     }
     /* global infos: each written pair exactly once */
     {
@@ -308,64 +336,250 @@ static int h_readback(const char *path, const cfg_t *c, char *err)
                 dbp_info_t *in = dbp_file_get_info(f, i);
                 if (!strcmp(dbp_info_get_key(in), keys[k])) {
                     found++;
-                    if (strcmp(dbp_info_get_value(in), vals[k])) { size_t l = strlen(dbp_info_get_value(in)); free(gv); FAIL("reader: global info '%s' value differs (read %zu bytes, written %zu)", keys[k], l, strlen(vals[k])); }
+                    if (strcmp(dbp_info_get_value(in), vals[k])) { size_t l = strlen(dbp_info_get_value(in)); free(gv); FAIL("reader: %sglobal info '%s' value differs (read %zu bytes, written %zu)", who, keys[k], l, strlen(vals[k])); }
                 }
             }
-            if (found != 1) { free(gv); FAIL("reader: global info '%s' found %d times", keys[k], found); }
+            if (found != 1) { free(gv); FAIL("reader: %sglobal info '%s' found %d times", who, keys[k], found); }
         }
         free(gv);
     }
     /* streams */
-    int nthr = 0; for (int s = 0; s < NSTREAM; s++) if (Mn[s] > 0) nthr++;
-    if (dbp_file_nb_threads(f) != nthr) FAIL("reader: %d streams in the file, %d streams received events", dbp_file_nb_threads(f), nthr);
+    int nthr = 0; for (int s = 0; s < NSTREAM; s++) if (rm->n[s] > 0) nthr++;
+    if (dbp_file_nb_threads(f) != nthr) FAIL("reader: %s%d streams in the file, %d streams received events", who, dbp_file_nb_threads(f), nthr);
     int t = 0;
     for (int s = 0; s < NSTREAM; s++) {
-        if (!Mn[s]) continue;
+        if (!rm->n[s]) continue;
         dbp_thread_t *th = dbp_file_get_thread(f, t++);
         char hr[64], v[32]; snprintf(hr, sizeof(hr), "C42 stream %d", s); snprintf(v, sizeof(v), "value-of-%d", s);
-        if (strcmp(dbp_thread_get_hr_id(th), hr)) FAIL("reader: stream #%d is '%s', expected '%s'", t - 1, dbp_thread_get_hr_id(th), hr);
-        if (dbp_thread_nb_events(th) != Mn[s]) FAIL("reader: stream %d announces %d events, %d were written", s, dbp_thread_nb_events(th), Mn[s]);
-        if (dbp_thread_nb_infos(th) != 1) FAIL("reader: stream %d has %d infos, 1 was written", s, dbp_thread_nb_infos(th));
-        if (strcmp(dbp_info_get_key(dbp_thread_get_info(th, 0)), "C42 sid") || strcmp(dbp_info_get_value(dbp_thread_get_info(th, 0)), v)) FAIL("reader: stream %d info is '%s'='%s'", s, dbp_info_get_key(dbp_thread_get_info(th, 0)), dbp_info_get_value(dbp_thread_get_info(th, 0)));
+        if (strcmp(dbp_thread_get_hr_id(th), hr)) FAIL("reader: %sstream #%d is '%s', expected '%s'", who, t - 1, dbp_thread_get_hr_id(th), hr);
+        if (dbp_thread_nb_events(th) != rm->n[s]) FAIL("reader: %sstream %d announces %d events, %d were written", who, s, dbp_thread_nb_events(th), rm->n[s]);
+        if (dbp_thread_nb_infos(th) != 1) FAIL("reader: %sstream %d has %d infos, 1 was written", who, s, dbp_thread_nb_infos(th));
+        if (strcmp(dbp_info_get_key(dbp_thread_get_info(th, 0)), "C42 sid") || strcmp(dbp_info_get_value(dbp_thread_get_info(th, 0)), v)) FAIL("reader: %sstream %d info is '%s'='%s'", who, s, dbp_info_get_key(dbp_thread_get_info(th, 0)), dbp_info_get_value(dbp_thread_get_info(th, 0)));
         dbp_event_iterator_t *it = dbp_iterator_new_from_thread(th);
         const dbp_event_t *e = dbp_iterator_current(it);
-        for (int i = 0; i < Mn[s]; i++, e = dbp_iterator_next(it)) {
-            const mev_t *m = &M[s][i];
+        for (int i = 0; i < rm->n[s]; i++, e = dbp_iterator_next(it)) {
+            const mev_t *m = &rm->ev[s][i];
             H_BEAT(i);
-            if (!e) FAIL("reader: stream %d ends after %d events, %d were written (first missing: #%d key %s %s)", s, i, Mn[s], m->gidx, KNAME[m->kidx], m->isend ? "end" : "begin");
-            if (h_verbose && (i < 16 || (i % 1024) == 0)) printf("    stream %d event %d: written key=%d flags=0x%x id=0x%llx tp=0x%x ilen=%d | read key=%d flags=0x%x id=0x%llx tp=0x%x ilen=%d ts=%llu\n", s, i, m->ukey, m->flags, (unsigned long long)m->eid, m->tp, m->ilen,
-                                  dbp_event_get_key(e), dbp_event_get_flags(e), (unsigned long long)dbp_event_get_event_id(e), dbp_event_get_taskpool_id(e), dbp_event_info_len(e, f), (unsigned long long)dbp_event_get_timestamp(e));
-            if (dbp_event_get_key(e) != m->ukey) FAIL("reader: stream %d event %d has key %d, written %d (%s %s)", s, i, dbp_event_get_key(e), m->ukey, KNAME[m->kidx], m->isend ? "end" : "begin");
-            if (dbp_event_get_event_id(e) != m->eid) FAIL("reader: stream %d event %d has event_id 0x%llx, written 0x%llx", s, i, (unsigned long long)dbp_event_get_event_id(e), (unsigned long long)m->eid);
-            if (dbp_event_get_taskpool_id(e) != m->tp) FAIL("reader: stream %d event %d has taskpool_id 0x%x, written 0x%x", s, i, dbp_event_get_taskpool_id(e), m->tp);
-            if (dbp_event_get_flags(e) != m->flags) FAIL("reader: stream %d event %d has flags 0x%x, written 0x%x", s, i, dbp_event_get_flags(e), m->flags);
+            if (!e) FAIL("reader: %sstream %d ends after %d events, %d were written (first missing: #%d key %s %s)", who, s, i, rm->n[s], m->gidx, KNAME[m->kidx], m->isend ? "end" : "begin");
+            if (h_verbose && (i < 16 || (i % 1024) == 0)) printf("    %sstream %d event %d: written key=%d flags=0x%x id=0x%llx tp=0x%x ilen=%d | read key=%d flags=0x%x id=0x%llx tp=0x%x ilen=%d ts=%llu\n", who, s, i, m->ukey, m->flags, (unsigned long long)m->eid, m->tp, m->ilen,
+                                  dbp_event_get_key(e), dbp_event_get_flags(e), (unsigned long long)dbp_event_get_event_id(e), dbp_event_get_taskpool_id(e),
+                                  BASE_KEY(dbp_event_get_key(e)) >= 0 && BASE_KEY(dbp_event_get_key(e)) < nd ? dbp_event_info_len(e, f) : -1, (unsigned long long)dbp_event_get_timestamp(e));
+            if (dbp_event_get_key(e) != m->ukey) FAIL("reader: %sstream %d event %d has key %d, written %d (%s %s)", who, s, i, dbp_event_get_key(e), m->ukey, KNAME[m->kidx], m->isend ? "end" : "begin");
+            /* the key NAME, through the dictionary mapping of this file */
+            { const char *kn = dbp_dictionary_name(dbp_file_get_dictionary(f, BASE_KEY(dbp_event_get_key(e))));
+              if (strcmp(kn, KNAME[m->kidx])) FAIL("reader: %sstream %d event %d: its key %d names '%s' in the file's dictionary, the event was traced with key '%s'", who, s, i, dbp_event_get_key(e), kn, KNAME[m->kidx]); }
+            if (dbp_event_get_event_id(e) != m->eid) FAIL("reader: %sstream %d event %d has event_id 0x%llx, written 0x%llx", who, s, i, (unsigned long long)dbp_event_get_event_id(e), (unsigned long long)m->eid);
+            if (dbp_event_get_taskpool_id(e) != m->tp) FAIL("reader: %sstream %d event %d has taskpool_id 0x%x, written 0x%x", who, s, i, dbp_event_get_taskpool_id(e), m->tp);
+            if (dbp_event_get_flags(e) != m->flags) FAIL("reader: %sstream %d event %d has flags 0x%x, written 0x%x", who, s, i, dbp_event_get_flags(e), m->flags);
             uint64_t ts = dbp_event_get_timestamp(e);
-            if (!(ts > m->tlo && ts <= m->thi)) FAIL("reader: stream %d event %d has timestamp %llu, the clock was in (%llu,%llu] during the call", s, i, (unsigned long long)ts, (unsigned long long)m->tlo, (unsigned long long)m->thi);
+            if (!(ts > m->tlo && ts <= m->thi)) FAIL("reader: %sstream %d event %d has timestamp %llu, the clock was in (%llu,%llu] during the call", who, s, i, (unsigned long long)ts, (unsigned long long)m->tlo, (unsigned long long)m->thi);
             int il = dbp_event_info_len(e, f); void *ip = dbp_event_get_info(e);
-            if (il != m->ilen) FAIL("reader: stream %d event %d has payload length %d, written %d", s, i, il, m->ilen);
-            if ((ip != NULL) != (m->has_info != 0)) FAIL("reader: stream %d event %d payload presence %d, written %d", s, i, ip != NULL, m->has_info);
-            if (m->has_info && memcmp(ip, m->info, (size_t)m->ilen)) FAIL("reader: stream %d event %d payload bytes differ", s, i);
+            if (il != m->ilen) FAIL("reader: %sstream %d event %d has payload length %d, written %d", who, s, i, il, m->ilen);
+            if ((ip != NULL) != (m->has_info != 0)) FAIL("reader: %sstream %d event %d payload presence %d, written %d", who, s, i, ip != NULL, m->has_info);
+            if (m->has_info && memcmp(ip, m->info, (size_t)m->ilen)) FAIL("reader: %sstream %d event %d payload bytes differ", who, s, i);
         }
-        if (e) FAIL("reader: stream %d yields more than the %d events written (extra key %d id 0x%llx)", s, Mn[s], dbp_event_get_key(e), (unsigned long long)dbp_event_get_event_id(e));
+        if (e) FAIL("reader: %sstream %d yields more than the %d events written (extra key %d id 0x%llx)", who, s, rm->n[s], dbp_event_get_key(e), (unsigned long long)dbp_event_get_event_id(e));
         dbp_iterator_delete(it);
+    }
+    return 0;
+}
+
+static int h_readback(const char *path, const rmodel_t *rm, const char *who, char *err)
+{
+    char *files[1] = { (char *)path };
+    dbp_multifile_reader_t *dbp = dbp_reader_open_files(1, files);
+    if (!dbp) FAIL("reader: %sdbp_reader_open_files returned NULL", who);
+    if (dbp_reader_nb_files(dbp) != 1) FAIL("reader: %s%d files opened instead of 1", who, dbp_reader_nb_files(dbp));
+    if (dbp_reader_last_error(dbp) != 0) FAIL("reader: %sreports error %d on a complete trace", who, dbp_reader_last_error(dbp));
+    if (h_check_file(dbp, 0, rm, who, err)) return 1;
+    dbp_reader_close_files(dbp);
+    dbp_reader_destruct(dbp);
+    return 0;
+}
+
+/* n rank files opened TOGETHER, in the argument order ord[] (file #i of the reader = the file written by RM[ord[i]]).
+ * desc receives the local->global dictionary maps (outcome signature); *nonid = some file's map is not the identity */
+static int h_readback_multi(int n, char paths[][320], const int *ord, const rmodel_t *RM, char *err, char *desc, size_t dcap, int *nonid)
+{
+    static dent_t DE[MAXRANK][MAXDENT]; int nde[MAXRANK];
+    char *files[MAXRANK]; char who[64];
+    for (int i = 0; i < n; i++) files[i] = paths[ord[i]];
+    dbp_multifile_reader_t *dbp = dbp_reader_open_files(n, files);
+    if (!dbp) FAIL("reader: dbp_reader_open_files(%d files) returned NULL", n);
+    if (dbp_reader_nb_files(dbp) != n) FAIL("reader: %d files opened instead of %d", dbp_reader_nb_files(dbp), n);
+    if (dbp_reader_last_error(dbp) != 0) FAIL("reader: reports error %d on %d complete traces of one run", dbp_reader_last_error(dbp), n);
+    for (int i = 0; i < n; i++) {
+        snprintf(who, sizeof(who), "[%d files together] file #%d (rank %d): ", n, i, RM[ord[i]].c.rank);
+        if (h_check_file(dbp, i, &RM[ord[i]], who, err)) return 1;
+    }
+    /* merged dictionary: every distinct (name, info length, convertor) registered by some rank exactly once, nothing else */
+    int nm = dbp_reader_nb_dictionary_entries(dbp), ndist = 0;
+    for (int i = 0; i < n; i++) nde[i] = h_dict_expect(&RM[ord[i]].c, DE[i]);
+    for (int i = 0; i < n; i++) for (int d = 0; d < nde[i]; d++) {
+        const dent_t *x = &DE[i][d]; int first = 1, cnt = 0;
+        for (int i2 = 0; i2 <= i && first; i2++) for (int d2 = 0; d2 < (i2 < i ? nde[i2] : d); d2++) { const dent_t *y = &DE[i2][d2]; if (y->len == x->len && !strcmp(y->name, x->name) && !strcmp(y->conv, x->conv)) { first = 0; break; } }
+        if (!first) continue;
+        ndist++;
+        for (int g = 0; g < nm; g++) { dbp_dictionary_t *e = dbp_reader_get_dictionary(dbp, g); if (dbp_dictionary_keylen(e) == x->len && !strcmp(dbp_dictionary_name(e), x->name) && !strcmp(dbp_dictionary_convertor(e), x->conv)) { cnt++;
+            if (strcmp(dbp_dictionary_attributes(e), x->attr + strlen(x->attr) - 6)) FAIL("reader: [%d files together] merged dictionary entry %d (%s) has colour '%s', written '%s'", n, g, x->name, dbp_dictionary_attributes(e), x->attr); } }
+        if (cnt != 1) FAIL("reader: [%d files together] the merged dictionary holds key '%s' (info length %d) %d times; it was registered (by rank %d%s) and must appear exactly once", n, x->name, x->len, cnt, RM[ord[i]].c.rank, n > 1 ? " first in argument order" : "");
+    }
+    if (nm != ndist) FAIL("reader: [%d files together] the merged dictionary has %d entries, the ranks registered %d distinct keys (name, info length, convertor)", n, nm, ndist);
+    /* local -> global translation of every file */
+    size_t o = (size_t)snprintf(desc, dcap, "merged=%d", nm); *nonid = 0;
+    for (int i = 0; i < n; i++) {
+        dbp_file_t *f = dbp_reader_get_file(dbp, i);
+        o += (size_t)snprintf(desc + o, dcap - o, " r%d:", RM[ord[i]].c.rank);
+        for (int d = 0; d < nde[i]; d++) {
+            int g = dbp_file_translate_local_dico_to_global(f, d);
+            if (g < 0 || g >= nm) FAIL("reader: [%d files together] file #%d maps its dictionary entry %d to global entry %d of %d", n, i, d, g, nm);
+            dbp_dictionary_t *e = dbp_reader_get_dictionary(dbp, g);
+            if (strcmp(dbp_dictionary_name(e), DE[i][d].name) || dbp_dictionary_keylen(e) != DE[i][d].len || strcmp(dbp_dictionary_convertor(e), DE[i][d].conv))
+                FAIL("reader: [%d files together] file #%d (rank %d) maps its entry %d ('%s', info length %d) to global entry %d = '%s', info length %d", n, i, RM[ord[i]].c.rank, d, DE[i][d].name, DE[i][d].len, g, dbp_dictionary_name(e), dbp_dictionary_keylen(e));
+            if (g != d) *nonid = 1;
+            if (o + 8 < dcap) o += (size_t)snprintf(desc + o, dcap - o, "%s%d", d ? "," : "", g);
+        }
     }
     dbp_reader_close_files(dbp);
     dbp_reader_destruct(dbp);
     return 0;
 }
 
+/* ---- leg multi: one case = n rank files, each written by its own writer, opened TOGETHER in argument order O, and each alone.
+ *     MULTI N=<n> O=<i,j[,k]> F=<0|1|2> | <program of writer 0> | <program of writer 1> [| ...]        (programs as above, R= distinct)
+ * F=1: every file is written by a forked, fresh process (no reset of the writer's statics: the worker itself never writes);
+ * F=0: written in this process with the statics reset, like the other legs; F=2: like 0, and a file whose program is literally the
+ * same as in a neighbouring case of this worker is written (and read alone) once and kept while it is needed: the writer is
+ * deterministic (tick clock), and one joint opening costs 2 ms where one write costs 6 ms (fork + write: 26 ms) */
+#define FS_MAXEV 1024
+#define NFS 48
+typedef struct { int valid, alone_ok, maxbuf, rc; long stamp; char prog[600], path[320], layout[512], err[SX_ERRLEN]; rmodel_t rm; mev_t ev[NSTREAM][FS_MAXEV]; } fslot_t;
+static fslot_t *FS = NULL; static long fs_clock = 0; static long fs_written = 0; static int h_wrote_here = 0;
+static double h_bench[3];      /* seconds spent writing / reading together / reading alone (development option --bench) */
+static void h_fs_drop(fslot_t *f) { if (f->valid) { if (truncate(f->path, 0)) {} unlink(f->path); f->valid = 0; } }
+static void h_fs_flush(void) { if (FS) for (int k = 0; k < NFS; k++) h_fs_drop(&FS[k]); }
+static int h_fs_write(fslot_t *f, int k, int slot, const char *prog, int forked, char *err)
+{
+    char base[300]; int rc;
+    snprintf(base, sizeof(base), "%s/w%df%d", h_dir, slot, k);
+    snprintf(f->prog, sizeof(f->prog), "%s", prog); f->alone_ok = 0; f->err[0] = 0;
+    for (int s = 0; s < NSTREAM; s++) { f->rm.ev[s] = f->ev[s]; f->rm.n[s] = 0; }
+    fs_written++;
+    if (forked) {
+        fflush(stdout); fflush(stderr);
+        f->rc = -1;
+        pid_t pid = fork();
+        if (pid < 0) FAIL("harness: fork failed (%s)", strerror(errno));
+        if (pid == 0) {
+            prctl(PR_SET_PDEATHSIG, SIGKILL);
+            h_fresh = !h_wrote_here; h_maxev = FS_MAXEV;
+            for (int s = 0; s < NSTREAM; s++) M[s] = f->ev[s];
+            int r = h_write(prog, base, &f->rm.c, f->err);
+            for (int s = 0; s < NSTREAM; s++) f->rm.n[s] = Mn[s];
+            f->rc = r;
+            _exit(0);
+        }
+        int st;
+        while (waitpid(pid, &st, 0) < 0 && errno == EINTR) ;
+        if (WIFSIGNALED(st)) FAIL("the writer process died (signal %d%s) while writing [%s]", WTERMSIG(st), WTERMSIG(st) == SIGABRT ? ", assertion failure in the writer" : "", prog);
+        if (!WIFEXITED(st) || WEXITSTATUS(st) != 0 || f->rc < 0) FAIL("the writer process exited with status %d while writing [%s]", WEXITSTATUS(st), prog);
+        if (f->rc) { snprintf(err, SX_ERRLEN, "%s", f->err); return 1; }
+    } else {
+        mev_t *save[NSTREAM]; int sf = h_fresh, sm = h_maxev;
+        for (int s = 0; s < NSTREAM; s++) { save[s] = M[s]; M[s] = f->ev[s]; }
+        h_fresh = 0; h_maxev = FS_MAXEV; h_wrote_here = 1;
+        rc = h_write(prog, base, &f->rm.c, err);
+        for (int s = 0; s < NSTREAM; s++) { f->rm.n[s] = Mn[s]; M[s] = save[s]; }
+        h_fresh = sf; h_maxev = sm;
+        if (rc) return 1;
+    }
+    snprintf(f->path, sizeof(f->path), "%s-%d.prof", base, f->rm.c.rank);
+    f->valid = 1;
+    h_layout(f->path, f->layout, sizeof(f->layout), &f->maxbuf);
+    return 0;
+}
+
+static int h_case_multi(const char *prog, int slot, char *err, sx_h128_t *sig, int *nontriv, long *nev, char *layout, size_t lcap)
+{
+    int n = 0, ord[MAXRANK] = { 0, 1, 2 }, mode = 0, k = 0, bad = 0, nonid = 0;
+    static char sub[MAXRANK][1024]; char lbuf[2048], paths[MAXRANK][320]; size_t o = 0; fslot_t *use[MAXRANK] = { NULL, NULL, NULL };
+    rmodel_t RM[MAXRANK]; long events = 0;
+    err[0] = 0; lbuf[0] = 0;
+    if (nev) *nev = 0;
+    if (nontriv) *nontriv = 0;
+    if (layout && lcap) layout[0] = 0;
+    if (sig) *sig = sx_hash("", 0);
+    if (!FS) { FS = mmap(NULL, sizeof(fslot_t) * NFS, PROT_READ | PROT_WRITE, MAP_SHARED | MAP_ANONYMOUS, -1, 0); if (FS == MAP_FAILED) { FS = NULL; FAIL("harness: mmap failed"); } }
+    if (sscanf(prog, "MULTI N=%d O=%d,%d%n", &n, &ord[0], &ord[1], &k) < 3 || n < 2 || n > MAXRANK) FAIL("harness: cannot parse case '%s'", prog);
+    const char *p = prog + k;
+    if (n == 3) { if (sscanf(p, ",%d%n", &ord[2], &k) != 1) FAIL("harness: cannot parse case '%s'", prog); p += k; }
+    if (sscanf(p, " F=%d%n", &mode, &k) != 1 || mode < 0 || mode > 2) FAIL("harness: cannot parse case '%s'", prog);
+    p += k;
+    { int seen = 0; for (int i = 0; i < n; i++) { if (ord[i] < 0 || ord[i] >= n) FAIL("harness: bad file order in '%s'", prog); seen |= 1 << ord[i]; } if (seen != (1 << n) - 1) FAIL("harness: bad file order in '%s'", prog); }
+    for (int r = 0; r < n; r++) {
+        while (*p == ' ') p++;
+        if (*p != '|') FAIL("harness: cannot parse case '%s'", prog);
+        p++; while (*p == ' ') p++;
+        const char *q = strchr(p, '|'); size_t l = q ? (size_t)(q - p) : strlen(p);
+        while (l > 0 && p[l - 1] == ' ') l--;
+        if (l >= sizeof(FS[0].prog)) FAIL("harness: program too long");
+        memcpy(sub[r], p, l); sub[r][l] = 0; p = q ? q : p + strlen(p);
+    }
+    /* the n files: reuse (F=2) or write */
+    for (int r = 0; r < n && !bad; r++) {
+        fslot_t *f = NULL; int fk = -1;
+        if (mode == 2) for (int j = 0; j < NFS; j++) if (FS[j].valid && !strcmp(FS[j].prog, sub[r])) { f = &FS[j]; break; }
+        if (!f) {
+            for (int j = 0; j < NFS; j++) {      /* a free slot, else the least recently used one that this case does not use */
+                int pinned = 0; for (int r2 = 0; r2 < r; r2++) if (use[r2] == &FS[j]) pinned = 1;
+                if (pinned) continue;
+                if (!FS[j].valid) { fk = j; break; }
+                if (fk < 0 || FS[j].stamp < FS[fk].stamp) fk = j;
+            }
+            f = &FS[fk]; h_fs_drop(f);
+            double tw = h_now();
+            bad = h_fs_write(f, fk, slot, sub[r], mode == 1, err);
+            h_bench[0] += h_now() - tw;
+            if (bad) break;
+        }
+        f->stamp = ++fs_clock; use[r] = f;
+        for (int r2 = 0; r2 < r; r2++) if (use[r2]->rm.c.rank == f->rm.c.rank) { snprintf(err, SX_ERRLEN, "harness: two writers of one case use rank %d", f->rm.c.rank); bad = 1; }
+    }
+    if (!bad) {
+        for (int r = 0; r < n; r++) { RM[r] = use[r]->rm; snprintf(paths[r], sizeof(paths[r]), "%s", use[r]->path); events += RM[r].n[0] + RM[r].n[1];
+            if (o < sizeof(lbuf) - 600) o += (size_t)snprintf(lbuf + o, sizeof(lbuf) - o, "%sr%d{%s}", r ? " " : "", RM[r].c.rank, use[r]->layout); }
+        char desc[512]; desc[0] = 0;
+        double tr = h_now();
+        bad = h_readback_multi(n, paths, ord, RM, err, desc, sizeof(desc), &nonid);
+        h_bench[1] += h_now() - tr; tr = h_now();
+        snprintf(lbuf + o, sizeof(lbuf) - o, " | %s", desc);
+        if (h_verbose) printf("    file layouts and dictionary maps: %s\n", lbuf);
+        /* and every file alone (once per written file) */
+        for (int r = 0; r < n && !bad; r++) if (!use[r]->alone_ok) { char who[48]; snprintf(who, sizeof(who), "[file of rank %d alone] ", RM[r].c.rank); bad = h_readback(paths[r], &RM[r], who, err); use[r]->alone_ok = !bad; events += RM[r].n[0] + RM[r].n[1]; }
+        h_bench[2] += h_now() - tr;
+        if (layout) snprintf(layout, lcap, "%s", lbuf);
+    }
+    if (sig) *sig = sx_hash(lbuf, bad ? 0 : strlen(lbuf));
+    if (nontriv) *nontriv = nonid;
+    if (nev) *nev = events;
+    if (mode != 2 || bad) for (int r = 0; r < n; r++) if (use[r]) h_fs_drop(use[r]);
+    return bad;
+}
+
 /* one complete case. returns 0 ok / 1 violation (err). sig = hash of the raw layout, *nontriv = a stream spans >= 2 buffers */
 static int h_case(const char *prog, int slot, char *err, sx_h128_t *sig, int *nontriv, long *nev, char *layout, size_t lcap)
 {
-    char base[300], path[320]; cfg_t c; char lbuf[512]; int maxbuf = 0;
+    char base[300], path[320]; rmodel_t rm; char lbuf[512]; int maxbuf = 0;
+    if (!strncmp(prog, "MULTI ", 6)) return h_case_multi(prog, slot, err, sig, nontriv, nev, layout, lcap);
     snprintf(base, sizeof(base), "%s/w%d", h_dir, slot);
     err[0] = 0;
-    int bad = h_write(prog, base, &c, err);
-    snprintf(path, sizeof(path), "%s-%d.prof", base, c.rank);
+    int bad = h_write(prog, base, &rm.c, err);
+    snprintf(path, sizeof(path), "%s-%d.prof", base, rm.c.rank);
     if (!bad) {
+        for (int s = 0; s < NSTREAM; s++) { rm.ev[s] = M[s]; rm.n[s] = Mn[s]; }
         h_layout(path, lbuf, sizeof(lbuf), &maxbuf);
         if (h_verbose) printf("    file layout: %s\n", lbuf);
-        bad = h_readback(path, &c, err);
+        bad = h_readback(path, &rm, "", err);
         if (layout) snprintf(layout, lcap, "%s", lbuf);
     } else if (layout) layout[0] = 0;
     if (sig) *sig = sx_hash(lbuf, bad ? 0 : strlen(lbuf));
@@ -508,8 +722,78 @@ static int gen_fresh(const unit_t *u, case_fn fn, void *arg)
     }
     return 0;
 }
+/* leg "multi": n = 2..3 rank files with DIFFERENT dictionaries, opened together (in every argument order) and each alone.
+ * dictionary configuration = registration order of (A, B, pad) on ranks 1.. (rank 0 registers A, B, pad) x extra keys x, y registered by one
+ * rank only (before / after / around the shared keys; n = 3 also: by two of the three ranks at different places) x argument order x
+ * info-length variant (the same lengths on all ranks | a different (length A, length B) pair on every rank | ...).
+ * The leg is a list of parts (MPART); a unit = (part, [lo,hi)), index = program * nconfigurations + configuration. */
+static const char *PERM3[6] = { "abp", "apb", "bap", "bpa", "pab", "pba" };
+static const char *XSHAPE[5][2] = { { "x", "" }, { "", "x" }, { "xy", "" }, { "", "xy" }, { "x", "y" } };
+static const char *KVCFG[4][MAXRANK] = {
+    { "K=0,4 M=0 P=1", "K=4,24 M=1 P=1", "K=24,0 M=2 P=1" },       /* one name, different info lengths (and payload policies) on different ranks */
+    { "K=4,24 M=0 P=1", "K=4,24 M=0 P=1", "K=4,24 M=0 P=1" },
+    { "K=0,4 M=2 P=1", "K=0,4 M=2 P=1", "K=0,4 M=2 P=1" },
+    { "K=24,0 M=1 P=2", "K=24,0 M=1 P=2", "K=24,0 M=1 P=2" },
+};
+static const int ORD2[2][3] = { { 0, 1, 2 }, { 1, 0, 2 } };
+static const int ORD3[6][3] = { { 0, 1, 2 }, { 0, 2, 1 }, { 1, 0, 2 }, { 1, 2, 0 }, { 2, 0, 1 }, { 2, 1, 0 } };
+#define NPF 5
+static const char *PF[NPF + 2] = { "A+0 B+0 A-0 B-0 A+1 B+1 A-1 B-1", "UA+0x200 B-1 UB+1x100", "F0:4071 A+0 B-0", "F1:4070 B+1 A-1 A+0", "W3:0/1",
+                                   "W2:0/1", "W3:0/1" };      /* j = 5, 6: the same de Bruijn stream on every rank */
+/* extra-key options: 0 = none; 1..5n = rank (e-1)/5 registers shape (e-1)%5; n = 3: 16 = ranks 1 and 2 both register x (before / after),
+ * 17 = ranks 1 and 2 both register x and y (after, as x y / before, as y x) */
+static const int XS_NONE[] = { 0 }, XS_RED2[] = { 0, 6 /* rank 1: x before */, 4 /* rank 0: x y after */ }, XS_RED3[] = { 0, 16, 17, 15 /* rank 2: x before, y after */ }, XS_17[] = { 17 };
+typedef struct { int n, seq /* 1: every sequence of length <= L, the same on every rank; 0: fixed programs j0..j0+nj-1 (rank r runs PF[(j+r)%5]) */,
+                 mode /* F= */, xset /* 0 none, 1 reduced, 2 all */, nkv, L, j0, nj; } mpart_t;
+static mpart_t MPART[16]; static int nmpart = 0;
+static int multi_xopts(const mpart_t *m, const int **list)
+{
+    static int all[32];
+    if (m->xset == 0) { *list = XS_NONE; return 1; }
+    if (m->xset == 1) { *list = m->n == 2 ? XS_RED2 : XS_RED3; return m->n == 2 ? 3 : 4; }
+    if (m->xset == 3) { *list = XS_17; return 1; }
+    int c = 1 + 5 * m->n + (m->n == 3 ? 2 : 0); for (int i = 0; i < c; i++) all[i] = i; *list = all; return c;
+}
+static long multi_ncfg(const mpart_t *m) { const int *l; long c = (long)multi_xopts(m, &l) * m->nkv; for (int r = 1; r < m->n; r++) c *= 6; return c * (m->n == 2 ? 2 : 6); }
+static long multi_nseq(int L) { long c = 0; for (int l = 0; l <= L; l++) c += seq_count(l); return c; }
+static long multi_nprog(const mpart_t *m) { return m->seq ? multi_nseq(m->L) : m->nj; }
+static int gen_multi(const unit_t *u, case_fn fn, void *arg)
+{
+    const mpart_t *m = &MPART[u->cfg]; int n = m->n; long ncfg = multi_ncfg(m);
+    const int *xl; int nx = multi_xopts(m, &xl);
+    char prog[1024], tok[8];
+    for (long idx = u->lo; idx < u->hi; idx++) {
+        long x = idx % ncfg, pi = idx / ncfg;
+        int kv = (int)(x % m->nkv); x /= m->nkv;
+        int oi = (int)(x % (n == 2 ? 2 : 6)); x /= (n == 2 ? 2 : 6);
+        int e = xl[x % nx]; x /= nx;
+        int perm[MAXRANK] = { 0, 0, 0 }; for (int r = 1; r < n; r++) { perm[r] = (int)(x % 6); x /= 6; }
+        const int *ord = n == 2 ? ORD2[oi] : ORD3[oi];
+        const char *before[MAXRANK] = { "", "", "" }, *after[MAXRANK] = { "", "", "" };
+        if (e >= 1 && e <= 5 * n) { before[(e - 1) / 5] = XSHAPE[(e - 1) % 5][0]; after[(e - 1) / 5] = XSHAPE[(e - 1) % 5][1]; }
+        else if (e == 5 * n + 1) { before[1] = "x"; after[2] = "x"; }
+        else if (e == 5 * n + 2) { after[1] = "xy"; before[2] = "yx"; }
+        size_t o = (size_t)snprintf(prog, sizeof(prog), "MULTI N=%d O=%d,%d", n, ord[0], ord[1]);
+        if (n == 3) o += (size_t)snprintf(prog + o, sizeof(prog) - o, ",%d", ord[2]);
+        o += (size_t)snprintf(prog + o, sizeof(prog) - o, " F=%d", m->mode);
+        for (int r = 0; r < n; r++) {
+            o += (size_t)snprintf(prog + o, sizeof(prog) - o, " | %s X=0,0 G=%d R=%d D=%s%s%s ;", KVCFG[kv][r], 5 + r, r, before[r], PERM3[perm[r]], after[r]);
+            if (m->seq) {
+                long y = pi; int len = 0; while (y >= seq_count(len)) { y -= seq_count(len); len++; }
+                for (int i = 0; i < len; i++) { h_symtok((int)(y & 7), tok); y >>= 3; o += (size_t)snprintf(prog + o, sizeof(prog) - o, " %s", tok); }
+            } else {
+                o += (size_t)snprintf(prog + o, sizeof(prog) - o, " %s", m->j0 + pi >= NPF ? PF[m->j0 + pi] : PF[(m->j0 + pi + r) % NPF]);
+                if (strchr(before[r], 'x') || strchr(after[r], 'x')) o += (size_t)snprintf(prog + o, sizeof(prog) - o, " X+0 A+0 X-0 X+1 B+1");
+                if (strchr(before[r], 'y') || strchr(after[r], 'y')) o += (size_t)snprintf(prog + o, sizeof(prog) - o, " Y+1 B-1 Y-1 Y-0 A-0");
+            }
+        }
+        int rr = fn(prog, arg); if (rr) return rr;
+    }
+    return 0;
+}
 static int gen_unit(const unit_t *u, case_fn fn, void *arg)
 {
+    if (!strcmp(u->leg, "multi")) return gen_multi(u, fn, arg);
     if (!strcmp(u->leg, "seq")) return gen_seq(u, fn, arg);
     if (!strcmp(u->leg, "runs")) return gen_runs(u, fn, arg);
     if (!strcmp(u->leg, "dict")) return gen_dict(u, fn, arg);
@@ -521,7 +805,7 @@ static int gen_unit(const unit_t *u, case_fn fn, void *arg)
 /* ------------------------------------------------------------------ master / workers ---- */
 typedef struct {
     volatile long unit_done;           /* cases of the current unit completed */
-    volatile long cases, events, nontrivial, violations;
+    volatile long cases, events, nontrivial, violations, files;
     volatile double last_progress;
     char cur[1024];
     char vcase[3][1024]; char vmsg[3][SX_ERRLEN];
@@ -551,13 +835,14 @@ static int worker_case(const char *prog, void *arg)
     char err[SX_ERRLEN]; sx_h128_t sig; int nt; long nev; char layout[512];
     int bad = h_case(prog, w->slot, err, &sig, &nt, &nev, layout, sizeof(layout));
     sl->cases++; sl->events += nev; if (nt) sl->nontrivial++;
+    sl->files = fs_written ? fs_written : sl->cases;      /* trace files written by this worker (leg multi: several per case, or reused) */
     if (bad) { long v = sl->violations; if (v < 3) { snprintf(sl->vcase[v], sizeof(sl->vcase[v]), "%s", prog); snprintf(sl->vmsg[v], sizeof(sl->vmsg[v]), "%s", err); } sl->violations = v + 1; }
     else {
         outcome_add(sig);
         if (nt && SH->nsample < 4 && (sl->cases % 97) == 1) { int k = __sync_fetch_and_add(&SH->nsample, 1); if (k < 4) snprintf(SH->sample[k], sizeof(SH->sample[k]), "%.700s => %.300s", prog, layout); }
     }
     sl->unit_done = w->seen; sl->last_progress = h_now();
-    if (bad) _exit(77);     /* the writer may be half-initialised: continue in a fresh process */
+    if (bad) { h_fs_flush(); _exit(77); }     /* the writer may be half-initialised: continue in a fresh process */
     return 0;
 }
 
@@ -573,6 +858,7 @@ static int spawn_worker(wrk_t *W, int s, unit_t *units)
     if (pid == 0) {
         wctx_t w = { s, W[s].skip, 0 };
         gen_unit(&units[W[s].unit], worker_case, &w);
+        h_fs_flush();
         _exit(0);
     }
     W[s].pid = pid;
@@ -583,7 +869,7 @@ static int run_leg(const char *leg, unit_t *units, int nunits, int jobs, double 
     double t0 = h_now();
     memset((void *)SH->outcomes, 0, sizeof(SH->outcomes)); SH->nsample = 0;
     wrk_t W[NSLOT]; int active = 0, next = 0, exhaustive = 1, stop = 0, nviol = 0;
-    long cases = 0, events = 0, nontriv = 0;
+    long cases = 0, events = 0, nontriv = 0, files = 0;
     for (int i = 0; i < NSLOT; i++) W[i].pid = 0;
     while (1) {
         for (int s = 0; s < jobs && !stop; s++) {
@@ -605,7 +891,7 @@ static int run_leg(const char *leg, unit_t *units, int nunits, int jobs, double 
         if (s == jobs) continue;
         W[s].pid = 0; active--;
         slot_t *sl = &SH->slot[s];
-        cases += sl->cases; events += sl->events; nontriv += sl->nontrivial;
+        cases += sl->cases; events += sl->events; nontriv += sl->nontrivial; files += sl->files;
         for (long v = 0; v < sl->violations && v < 3; v++) { if (nviol < 3) sx_violation(leg, sl->vcase[v], sl->vmsg[v]); nviol++; }
         int again = 0;
         if (WIFEXITED(st) && WEXITSTATUS(st) == 77) { W[s].skip += sl->unit_done; again = 1; }      /* stopped after a recorded violation */
@@ -624,7 +910,7 @@ static int run_leg(const char *leg, unit_t *units, int nunits, int jobs, double 
     long outcomes = 0; for (size_t i = 0; i < OUTCOME_CAP; i++) if (SH->outcomes[i]) outcomes++;
     if (nviol || next < nunits) exhaustive = 0;
     const char *sp[4] = { SH->sample[0], SH->sample[1], SH->sample[2], SH->sample[3] };
-    char extra[128]; snprintf(extra, sizeof(extra), "\"units\":%d,\"units_done\":%d", nunits, next);
+    char extra[128]; snprintf(extra, sizeof(extra), "\"units\":%d,\"units_done\":%d,\"trace_files_written\":%ld", nunits, next, files);
     sx_report(leg, outcomes, events, cases, nontriv, outcomes, exhaustive, nviol, h_now() - t0, extra, sp, SH->nsample > 4 ? 4 : SH->nsample);
     return nviol ? 1 : 0;
 }
@@ -633,6 +919,14 @@ static int add_units(unit_t *U, int nu, const char *leg, int cfg, int n, long to
 {
     for (long lo = 0; lo < total; lo += chunk) { U[nu].leg = leg; U[nu].cfg = cfg; U[nu].n = n; U[nu].lo = lo; U[nu].hi = lo + chunk < total ? lo + chunk : total; nu++; }
     return nu;
+}
+
+/* remove the scratch directory with whatever a killed worker left in it */
+static void h_rmdir_all(void)
+{
+    DIR *d = opendir(h_dir);
+    if (d) { struct dirent *de; char pth[600]; while ((de = readdir(d))) { if (de->d_name[0] == '.') continue; snprintf(pth, sizeof(pth), "%s/%s", h_dir, de->d_name); unlink(pth); } closedir(d); }
+    rmdir(h_dir);
 }
 
 int main(int argc, char **argv)
@@ -660,6 +954,12 @@ int main(int argc, char **argv)
         if (one) snprintf(hist, sizeof(hist), "%s", one);
         else if (sx_read_replay(sx_replay_file, scen, sizeof(scen), hist, sizeof(hist))) { fprintf(stderr, "cannot read replay file\n"); return 2; }
         printf("replay: case [%s]\n", hist); fflush(stdout);
+        for (int i = 1; i < argc; i++) if (!strcmp(argv[i], "--bench") && i + 1 < argc) {     /* development: time N in-process repetitions of the case */
+            int N = atoi(argv[i + 1]); char err[SX_ERRLEN]; double t0 = h_now();
+            for (int k = 0; k < N; k++) if (h_case(hist, 0, err, NULL, NULL, NULL, NULL, 0)) { printf("  %s\n", err); return 1; }
+            printf("bench: %d repetitions, %.3f ms each (write %.3f, read together %.3f, read alone %.3f)\n", N, (h_now() - t0) * 1e3 / N, h_bench[0] * 1e3 / N, h_bench[1] * 1e3 / N, h_bench[2] * 1e3 / N);
+            h_rmdir_all(); return 0;
+        }
         pid_t pid = fork();
         if (pid == 0) {
             char err[SX_ERRLEN]; h_verbose = 1;
@@ -671,7 +971,7 @@ int main(int argc, char **argv)
         if (WIFSIGNALED(st)) { printf("  writer/reader process died with signal %d\n", WTERMSIG(st)); rc = 1; }
         else rc = WEXITSTATUS(st);
         if (rc) printf("VIOLATION property=C42 replay=%s\n", sx_replay_file ? sx_replay_file : "-");
-        rmdir(h_dir);
+        h_rmdir_all();
         return rc ? 1 : 0;
     }
 
@@ -702,9 +1002,36 @@ int main(int argc, char **argv)
     if (!thorough) { RUN_K = 2; NTAIL = 2; dict_step = 3; conv_step = 5; win_nseg = 4; win_phases = 1; }
     else { RUN_K = 4; NTAIL = 5; dict_step = 1; conv_step = 1; win_nseg = 128; win_phases = 1; }
     if (freshlen < 0) freshlen = thorough ? 3 : 2;
-
+    /* leg multi (see gen_multi): n, sequences?, F, extra-key set, info-length variants, L | j0, nj */
+    if (!thorough) {
+        MPART[nmpart++] = (mpart_t){ 2, 0, 1, 0, 1, 0, 0, 1 };     /* 12 dictionary configurations x fixed program 0, forked fresh writers */
+        MPART[nmpart++] = (mpart_t){ 2, 0, 2, 2, 2, 0, 5, 1 };     /* all 264 configurations x the de Bruijn stream B(8,2): every sequence of 2 events as a window */
+        MPART[nmpart++] = (mpart_t){ 3, 0, 2, 3, 1, 0, 0, 1 };     /* 3 ranks: 36 x 6 configurations (ranks 1 and 2 both register x, y) x fixed program 0 */
+        MPART[nmpart++] = (mpart_t){ 2, 1, 2, 0, 1, 1, 0, 0 };     /* 12 configurations x every sequence of length <= 1 from a fresh trace */
+        MPART[nmpart++] = (mpart_t){ 2, 0, 2, 0, 2, 0, 1, 4 };     /* 24 configurations x 4 programs crossing buffer boundaries */
+    } else {
+        MPART[nmpart++] = (mpart_t){ 3, 0, 1, 3, 1, 0, 0, 1 };     /* 3 ranks, forked fresh writers: 216 configurations x fixed program 0 */
+        MPART[nmpart++] = (mpart_t){ 2, 0, 1, 2, 2, 0, 0, 1 };     /* 2 ranks, forked fresh writers: all 132 x 2 configurations x fixed program 0 */
+        MPART[nmpart++] = (mpart_t){ 3, 1, 2, 3, 1, 1, 0, 0 };     /* 3 ranks: 216 configurations x every sequence of length <= 1 */
+        MPART[nmpart++] = (mpart_t){ 2, 0, 2, 2, 4, 0, 5, 2 };     /* all 132 x 4 configurations x de Bruijn streams B(8,2), B(8,3) */
+        MPART[nmpart++] = (mpart_t){ 2, 0, 2, 2, 2, 0, 1, 4 };     /* all 132 x 2 configurations x 4 programs crossing buffer boundaries */
+        MPART[nmpart++] = (mpart_t){ 3, 0, 2, 2, 1, 0, 0, 1 };     /* 3 ranks: all 36 x 18 x 6 configurations x fixed program 0 */
+        MPART[nmpart++] = (mpart_t){ 2, 1, 2, 0, 1, 3, 0, 0 };     /* 12 configurations without extra keys x every sequence of length <= 3 */
+        MPART[nmpart++] = (mpart_t){ 2, 1, 2, 2, 1, 2, 0, 0 };     /* all 132 x 1 configurations x every sequence of length <= 2 */
+    }
     static unit_t U[1 << 16]; int nu;
     if ((!only || !strcmp(only, "fresh"))) { nu = 0; for (int c = 0; c < (thorough ? ncfg_seq : 3); c++) nu = add_units(U, nu, "fresh", c, 0, fresh_count(), 1); rc |= run_leg("fresh", U, nu, jobs, deadline); }
+    if (!rc && (!only || !strcmp(only, "multi"))) {
+        /* parts with forked writers are units of their own: their workers never write in-process, so every forked writer is a fresh process */
+        nu = 0;
+        int onlypart = -1; for (int i = 1; i < argc; i++) if (!strcmp(argv[i], "--mpart") && i + 1 < argc) onlypart = atoi(argv[i + 1]);      /* development */
+        for (int i = 0; i < nmpart; i++) { const mpart_t *m = &MPART[i]; if (onlypart >= 0 && i != onlypart) continue; long nc = multi_ncfg(m), per = m->mode == 1 ? 6 : nc > 300 ? (nc + (nc + 299) / 300 - 1) / ((nc + 299) / 300) : nc;
+            long total = nc * multi_nprog(m), par = total / 48 < 16 ? 16 : total / 48;      /* enough units to keep all workers busy */
+            nu = add_units(U, nu, "multi", i, 0, total, per < par ? per : par); }
+        /* the leg may use at most 40 % (thorough: 30 %) of the time budget: a cut leaves exhaustive:false for this leg and time for the others */
+        double mdl = deadline > 0 ? h_now() + (thorough ? 0.30 : 0.40) * (deadline - h_now()) : 0;
+        rc |= run_leg("multi", U, nu, jobs, mdl);
+    }
     if (!rc && (!only || !strcmp(only, "dict"))) { nu = add_units(U, 0, "dict", 0, 0, dict_count(), 10); rc |= run_leg("dict", U, nu, jobs, deadline); }
     if (!rc && (!only || !strcmp(only, "infos"))) { nu = add_units(U, 0, "infos", 0, 0, infos_n, 10); rc |= run_leg("infos", U, nu, jobs, deadline); }
     if (!rc && (!only || !strcmp(only, "runs"))) {
@@ -722,6 +1049,6 @@ int main(int argc, char **argv)
             long chunk = 160 / (1 + 3 * n); nu = add_units(U, nu, "seq", c, n, seq_count(n), chunk < 1 ? 1 : chunk); }
         rc |= run_leg("seq", U, nu, jobs, deadline);
     }
-    rmdir(h_dir);
+    h_rmdir_all();
     return sx_finish();
 }
